@@ -380,14 +380,14 @@ eng_prog = engprog.eng_prog
 WF_NOTE = "the planner theorems assume wfb pm args = true (a boolean well-formedness certificate of the provider map) which the correspondence run evaluates by vm_compute on every accepted case; it is not proved of process_set once and for all"
 SYNTH_NOTE = "explicit loop bounds of the model (acyc_fuel, solve_fuel) are validated by the correspondence run; the theorems hold for whatever fuel completes the run"
 PROPS = {
-    "C01": {"theorems": ["C01_one_implementation", "C14_disambiguate_fresh"], "engines": [eng_prog, eng_zerovalue],
+    "C01": {"theorems": ["C01_one_implementation", "C14_names_distinct", "C14_invented_names_fresh"], "engines": [eng_prog, eng_zerovalue],
             "assumptions": ["partial: Go's full type checker and types.TypeString are not modelled; that the package compiles is established by go build on every accepted program"]},
     "C02": {"theorems": ["C02_wiring", "C02_machine_refines_visit", "C06_accepted_is_complete"], "engines": [eng_synth, eng_prog], "assumptions": [SYNTH_NOTE, WF_NOTE, "emission of the planned calls and the run-time behaviour are tied by the emitted-lines correspondence and the runtime traces"]},
     "C03": {"theorems": ["C03_failure"], "engines": [eng_prog],
             "assumptions": ["Go semantics of the emitted fragment (short variable declarations, if, calls, closures) is Exec.v's reading of the Go spec, validated by the runtime traces of every generated injector under every single-provider failure"]},
     "C04": {"theorems": ["C04_success"], "engines": [eng_prog],
             "assumptions": ["Go semantics of the emitted fragment is Exec.v's reading of the Go spec, validated by runtime traces"]},
-    "C05": {"theorems": ["C05_never_picks", "C05_closure_spelled_out", "C05_conflict_is_real"], "engines": [eng_synth, eng_prog], "assumptions": [SYNTH_NOTE]},
+    "C05": {"theorems": ["C05_never_picks", "C05_closure_spelled_out", "C05_conflict_is_real", "C05_conflict_is_reported"], "engines": [eng_synth, eng_prog], "assumptions": [SYNTH_NOTE]},
     "C06": {"theorems": ["C06_missing", "C06_rejected_names_missing", "C06_accepted_is_complete"], "engines": [eng_synth, eng_prog], "assumptions": [SYNTH_NOTE, WF_NOTE]},
     "C07": {"theorems": ["C07_cycles_detected", "C07_only_cycle_errors", "C07_terminates", "C07_machine_refines_dfs", "C07_solve_terminates", "C07_checker_graph_covers_planner_graph"],
             "engines": [eng_synth, eng_prog],
@@ -402,7 +402,7 @@ PROPS = {
     "C13": {"theorems": ["C13_whitelist_sound", "C13_whitelist_complete"], "engines": [eng_valuetable, eng_forms, eng_copyprobe, eng_prog],
             "assumptions": ["expression trees are abstracted to the node kinds processValue distinguishes; the mapping from Go syntax to kinds is the table's (hand-written per form)",
                             "evaluation once at package initialisation is Go's semantics of package-level variables, not modelled"]},
-    "C14": {"theorems": ["C14_disambiguate_fresh", "C01_one_implementation"], "engines": [eng_prog],
+    "C14": {"theorems": ["C14_names_distinct", "C14_invented_names_fresh", "C14_disambiguate_fresh", "C16_collision_order_independent"], "engines": [eng_prog],
             "assumptions": ["identifiers are ASCII in the model; non-ASCII names are outside the generated corpus"]},
     "C15": {"theorems": ["C15_copy_identity", "C15_missing_field_is_lost"], "engines": [eng_copyprobe, eng_copydecls],
             "assumptions": ["partial: the capture-avoiding renaming of rewritePkgRefs is exercised by the declaration corpus (structure + behaviour), not modelled in Coq",
